@@ -19,7 +19,9 @@ RULE = ("seeded concurrent workloads: 2-6 callers x 2-5 requests over 1-3 origin
         "after partial body, cancelled at a random suspension point (scope-before/after, native), read timeout, POST "
         "streamed}; server behaviours {keep-alive, chunked, Connection: close, HTTP/1.0, close-delimited, early "
         "response}; seeded op latencies and injected faults; distinct+non-trivial = workload whose interleaving "
-        "fingerprint (sequence of (caller, op kind, transport)) is new and which reused at least one connection")
+        "fingerprint (sequence of (caller, op kind, transport)) is new and which reused at least one connection; in half of "
+        "the workloads requests carry their own Host header (virtual hosts on one URL origin, so on the same pooled "
+        "connections) and the response must come from the virtual host that was asked")
 ASSUMPTIONS = ["origin endpoints send exactly one well-framed final response per request and record it per token",
                "asyncio ready-queue order is not perturbed (FIFO by contract); diversity comes from seeded latencies, "
                "think times and, on trio, the seeded scheduler shuffle"]
@@ -60,6 +62,9 @@ def run_case(case):
                 cnt["hangs"] += 1  # judged by C07, not here
             n, bad = wl.echo_violations()
             cnt["responses_checked"] += n
+            if spec.get("vhosts"):
+                cnt["vhost_responses_checked"] = cnt.get("vhost_responses_checked", 0) + sum(
+                    1 for rec in wl.records if rec.get("got") is not None and rec["host_wanted"].startswith("v"))
             for kind, rec, msg in bad:
                 v("crosstalk:" + kind, msg, {"spec": spec, "token": rec["token"], "behaviour": rec["beh"]})
             reused = 0
@@ -99,5 +104,9 @@ def plan(tier, seed):
     for i in range(n_cases):
         flavor = ["asyncio", "trio"][i % 2]
         specs = [gen_spec(r, flavor) for _ in range(per)]
+        for sp in specs:
+            # half of the workloads address virtual hosts: same URL origin (so the same pooled connections), a Host header
+            # of their own per request; the origin reports the Host / :authority it was asked for
+            sp["vhosts"] = sp["seed"] % 2 == 0
         cases.append({"flavor": flavor, "specs": specs, "seed": r.randrange(1 << 30)})
     return cases
